@@ -19,7 +19,8 @@ EXPLANATION = (
 )
 
 
-SUP_RULES = ("SEED-", "IFT-domain", "IFT-extension", "IFT-pred", "IFT-order", "IFT-cost", "IFT-policy", "IFT-graph",
+SUP_RULES = ("SEED-", "IFT-domain", "IFT-extension", "IFT-pred", "IFT-order", "IFT-cost", "IFT-policy", "IFT-graph", "IFT-guard",
+             "PRIM-guard",
              "IFT-update-sites", "PRIM-mark", "PRIM-key", "PRIM-domain", "PRIM-pred", "PRIM-policy", "PRIM-start",
              "SCAN-")
 
